@@ -125,20 +125,43 @@ def gen_failover(scn, rng):
 
 
 def gen_moves(scn, rng):
-    """Steady-state moves: instances placed, their server dies and retention runs
+    """Steady-state moves: instances placed, a server dies and retention runs
     out (or the partition changes), the live master's next cycle moves them and
-    is cut at every storage write."""
+    is cut at every storage write.  Every server in turn is the one that dies,
+    so moves in both directions of any publication order are produced."""
     napps = rng.randrange(1, len(scn['apps']) + 1)
-    h = [('CreateApp', [scn['apps'][j], rng.randrange(len(scn['aprofiles'])) + 1])
-         for j in range(napps)]
-    h.append(('Cycle', []))
+    base = [('CreateApp', [scn['apps'][j], rng.randrange(len(scn['aprofiles'])) + 1])
+            for j in range(napps)]
+    base.append(('Cycle', []))
     servers = sorted(s for s, k in scn['server_init'].items() if k)
-    for s in rng.sample(servers, rng.randrange(1, len(servers))):
-        h.append(('NodeDown', [s]))
-    if rng.random() < 0.4:
-        h.append(('SetAllocs', [rng.randrange(len(scn['allocsets'])) + 1]))
-    h.append(('Tick', [rng.choice([3, 6, 6])]))
-    return [h + [('CrashCycle', [k]), ('Restart', [])] for k in range(1, 7)]
+    realloc = [('SetAllocs', [rng.randrange(len(scn['allocsets'])) + 1])] if rng.random() < 0.3 else []
+    tick = [('Tick', [rng.choice([3, 6, 6])])]
+    out = []
+    for s in servers:
+        h = base + [('NodeDown', [s])] + realloc + tick
+        out += [h + [('CrashCycle', [k]), ('Restart', [])] for k in range(1, 7)]
+    return out
+
+
+def gen_lease_failover(scn, rng):
+    """Long leases against reboot dates: instances with a multi-day lease are
+    placed, days pass (the lease is still running, the servers' reboot dates come
+    within a lease length), the master fails over."""
+    leased = [i + 1 for i, p in enumerate(scn['aprofiles']) if str(p.get('lease', '')).endswith('d')]
+    other = [i + 1 for i in range(len(scn['aprofiles'])) if i + 1 not in leased]
+    h = []
+    for j, a in enumerate(scn['apps'][:rng.randrange(1, len(scn['apps']) + 1)]):
+        h.append(('CreateApp', [a, rng.choice(leased) if j == 0 or rng.random() < 0.5 else rng.choice(other)]))
+    h.append(('Cycle', []))
+    if rng.random() < 0.3:
+        servers = sorted(s for s, k in scn['server_init'].items() if k)
+        h.append(('ServerState', [rng.choice(servers), 'frozen', []]))
+    h.append(('Tick', [rng.choice([14, 15, 16, 17, 18]) * 86400]))
+    if rng.random() < 0.5:
+        h.append(('Cycle', []))
+    h.append(('Restart', []))
+    h.append(('Cycle', []))
+    return h
 
 
 def run(ctx, prop):
@@ -182,6 +205,9 @@ def run(ctx, prop):
                 hist.append(('rnd-cut', hc))
     for _ in range(120 if ctx.quick else 1500):
         hist.append(('identity', mc.gen_identity(scn, rng, rng.choice([4, 6, 9]))))
+    if prop in ('C11', 'C09'):
+        for _ in range(40 if ctx.quick else 600):
+            hist.append(('lease-failover', gen_lease_failover(scn, rng)))
     if prop == 'C09':
         for _ in range(60 if ctx.quick else 800):
             hist.append(('pending', mc.gen_pending(scn, rng, rng.choice([6, 10]))))
@@ -189,7 +215,7 @@ def run(ctx, prop):
         for _ in range(30 if ctx.quick else 300):
             for hc in gen_failover(scn, rng):
                 hist.append(('failover', hc))
-        for _ in range(20 if ctx.quick else 300):
+        for _ in range(16 if ctx.quick else 300):
             for hc in gen_moves(scn, rng):
                 hist.append(('moves', hc))
     if prop == 'C10' and not ctx.quick:
